@@ -23,8 +23,13 @@ def main():
             r = subprocess.run(["/venv/bin/python", "run.py", c, "--tier", os.environ.get("TIER", "quick")],
                                cwd="/verif", env=env, stdout=subprocess.PIPE, stderr=subprocess.STDOUT)
             out = r.stdout.decode()
-            first = next((l for l in out.splitlines() if "mechanism=" in l), "")[:260]
-            print(f"{name} {c} rc={r.returncode} {first}")
+            mechs = [l for l in out.splitlines() if "mechanism=" in l]
+            first = (mechs[0] if mechs else "")[:260]
+            total = next((l.split("violations=")[1].split()[0] for l in out.splitlines() if "violations=" in l), "?")
+            print(f"{name} {c} rc={r.returncode} mechanisms={len(mechs)} violations={total} {first}")
+            if os.environ.get("ALL"):
+                for l in mechs[1:]:
+                    print("     " + l.strip()[:200])
             if r.returncode != 1:
                 missed += 1
                 print("   last line:", out.strip().splitlines()[-1][:300] if out.strip() else "")
